@@ -80,6 +80,7 @@ def run_plan(prop, plan, fresh=False):
     for k, v in (info.get("residuals") or {}).items():
         if not (v <= out["residuals"].get(k, -1.0)):
             out["residuals"][k] = v
+    out["counters"] = dict(info.get("counters") or {})
     out["nontrivial"] = bool(info.get("nontrivial", True))
     out["noverdict"] = bool(info.get("noverdict", False))
     out["faults"].update({k: out["faults"].get(k, 0) + v for k, v in (info.get("faults") or {}).items()})
